@@ -9,7 +9,7 @@ from pbt.util import pretty, call
 ID = "C04"
 TITLE = "Every simulated path is a legal walk of the model's events"
 RULE = ("Hypothesis builds bounded-rate event-only models (1-5 states, 1-5 events of 1-3 T/B/D transitions, integer "
-        "magnitudes 1-3, including exactly one event and exactly one state), integer x0, parameters, NumPy-scalar t0, a "
+        "magnitudes 1-3, including exactly one event and exactly one state; in 3 of 10 cases declared one- and two-sided state limits with a start one firing away from a bound; in some cases magnitudes carried by whole-number parameters and a second simulation on the same object after re-assigning the parameters), integer x0, parameters, NumPy-scalar t0, a "
         "horizon sized for <= ~3000 events, algorithm in {exact, adaptive tau-leap, fixed pre_tau}, 1-3 iterations and a "
         "NumPy seed. Oracle: invariant over each returned raw path with V from the abstract model: starts at (x0,t0), "
         "strictly increasing times, non-negative integer counts (unit vectors in exact mode), X[k+1]-X[k] == V*counts[k] "
@@ -21,7 +21,7 @@ ASSUMPTIONS = [
     "rates are non-negative on all states the limits allow; births use bounded rates (generator construction)",
     "a per-case 60 s safety net turns a runaway simulation into 'inconclusive', never into a violation",
 ]
-BUDGET = {"quick": (4, 180), "thorough": (16, 1500)}
+BUDGET = {"quick": (4, 150), "thorough": (16, 1500)}
 TECHNIQUE = "property-based testing (Hypothesis @given over models, seeds, algorithms) with a path invariant against the abstract model's state-change matrix"
 LEVEL_TEXT = ("Exploration over programs, inputs and random streams: each generated path is checked step by step against "
               "the state-change matrix derived independently from the abstract model. Right level: the property is an "
@@ -79,23 +79,42 @@ def strategy(tier):
         a = {"exact": algo == "exact", "pre_tau": None, "epsilon": None}
         if algo == "pre_tau":
             a["pre_tau"] = draw(st.sampled_from([0.01, 0.05, 0.2, 1.0]))
-        return {"model": m, "setup": setup, "algo": a, "iters": draw(st.integers(1, 3))}
+        c = {"model": m, "setup": setup, "algo": a, "iters": draw(st.integers(1, 3))}
+        if shape == "any" and draw(st.integers(0, 3)) == 0:
+            # magnitudes carried by parameters and a second simulation on the same object after re-assigning the parameters
+            pm = draw(S.parametrise_magnitudes(m, setup))
+            if pm is not None:
+                c["model"], c["setup"], theta_alt = pm
+                c["second"] = {"theta": theta_alt, "np_seed": draw(st.integers(0, 2 ** 32 - 1))}
+        return c
     return case()
 
 
 def oracle(case, rec):
-    m, su, algo = case["model"], case["setup"], case["algo"]
+    m, su = case["model"], case["setup"]
+    model, order = stoch.prepare(m, su)
+    stoch.configure(model, case["algo"])
+    stoch.limit_steps(model, STEP_BUDGET if case["algo"]["exact"] else 60000)
+    _check_run(case, rec, model, order, su, "")
+    sec = case.get("second")
+    if sec:
+        rec.label("second-call-after-parameter-change")
+        su2 = dict(su, theta=sec["theta"], np_seed=sec["np_seed"])
+        model.parameters = list(su2["theta"])
+        model.initial_values = (list(su2["x0"]), np.float64(su2["t0"]))
+        _check_run(case, rec, model, order, su2, "second-call/")
+
+
+def _check_run(case, rec, model, order, su, tag):
+    m, algo = case["model"], case["algo"]
     names = ir.state_names(m)
     n_s, n_e = len(names), len(m["events"])
-    model, order = stoch.prepare(m, su)
-    stoch.configure(model, algo)
     V = stoch.V_int(m, su["theta"], order)
     lims = ir.state_limits(m)
     t_end = su["t0"] + su["horizon"]
     which = "exact" if algo["exact"] else ("pre_tau" if algo["pre_tau"] else "tau")
     rec.label("algo:" + which, "nS:%d" % n_s, "nE:%d" % n_e)
-    key = "C04/" + which
-    box = stoch.limit_steps(model, STEP_BUDGET if algo["exact"] else 60000)
+    key = "C04/" + tag + which
     try:
         out = stoch.simulate("C04", key, case, stoch.run_raw, model, t_end, case["iters"], algo["exact"], su["np_seed"])
     except stoch.StepBudget:
